@@ -8,6 +8,8 @@ fn main() {
         eprintln!("usage: pv <runner> [options]");
         std::process::exit(2);
     }
+    // helper mode, run as a child process with a small descriptor limit: `pv lstfd <accept|drain>`
+    if argv[1] == "lstfd" { pv::lst::run_lstfd(argv.get(2).map_or("accept", |s| s.as_str())); return; }
     let args = pv::util::parse_args(&argv[2..]);
     match argv[1].as_str() {
         "c11" => pv::c11::run(&args),
